@@ -10,11 +10,11 @@
                           paths of plain components
      fs_ok c f            every path is clean absolute, every entry's parent is a directory entry,
                           no <layers>/<x>/layerconfig is a symbolic link
-     no_stale_tmp c f cmd for rebase: no left-over <layer>/layerconfig.tmp
+     no_stale_tmp c f cmd for rebase / rename: no left-over layerconfig.tmp in the layers that are rewritten
    Proofs/C02ExP.v shows a two-layer world satisfying all of them, and worlds violating each. *)
 From LC Require Import Lib.Bytes Lib.Lex Lib.Fields Lib.PathM Model.Config Gen.Consts
   Model.MountInfo Model.FsTree Model.Kernel Model.Layers Cases.Verdict Cases.LC Cases.C02
-  Proofs.RoundtripP Proofs.C02cP Proofs.C02dP Proofs.C02P Proofs.C02ExP.
+  Proofs.RoundtripP Proofs.C02cP Proofs.C02dP Proofs.C02eP Proofs.C02P Proofs.C02ExP.
 Import LC LCS.
 
 (* (a) on a forest no command diverges or panics: the fuelled walks (normalizeOrder, checkInheritance,
@@ -122,11 +122,27 @@ Theorem C02_read_is_canonical : forall content, canon_lf (read_layerfile content
 Proof. exact read_layerfile_canon. Qed.
 Print Assumptions C02_read_is_canonical.
 
-(* all four conjuncts of C02.step_spec together, for every command but rename *)
+(* (d) a successful rename (operations carried out): nothing is left under the old name, the old
+   subtree other than its layerconfig is identical under the new name and nothing else is there, the
+   layer's own definition is unchanged, every other layer has the same definition with its base
+   retargeted iff it was a child, everything else under the layers directory is untouched.
+   no_stale_tmp: no left-over layerconfig.tmp in the renamed layer or in a child. *)
+Theorem C02_rename_exact_partial : forall cfg w e cmd um,
+  cfg_ok cfg = true -> fs_ok cfg (wo_fs w) = true -> paths_distinct w = true ->
+  no_stale_tmp cfg (wo_fs w) cmd = true -> e_pretend e = false ->
+  let v := view_of_model cfg w e cmd um in
+  match v_cmd v, v_res v with
+  | CRename a n, ROk => C02.rename_exact cfg (wo_fs w) (wo_fs (v_after v)) a n
+  | _, _ => true
+  end = true.
+Proof. exact rename_exact_view. Qed.
+Print Assumptions C02_rename_exact_partial.
+
+(* all four conjuncts of C02.step_spec together *)
 Theorem C02_step_spec_partial : forall cfg w e cmd um,
   cfg_ok cfg = true -> fs_ok cfg (wo_fs w) = true -> kernel_wf w = true -> names_distinct cfg w = true ->
   paths_distinct w = true -> no_stale_tmp cfg (wo_fs w) cmd = true ->
-  C02.forest_ok cfg (wo_fs w) = true -> not_rename cmd = true ->
+  C02.forest_ok cfg (wo_fs w) = true ->
   in_scope e cmd (v_res (view_of_model cfg w e cmd um)) = true ->
   C02.step_spec cfg w (view_of_model cfg w e cmd um) = true.
 Proof. exact step_spec_view. Qed.
@@ -137,7 +153,7 @@ Print Assumptions C02_step_spec_partial.
 Theorem C02_hypotheses_satisfiable :
   (cfg_ok cfg0 && fs_ok cfg0 fs0 && kernel_wf wld0 && names_distinct cfg0 wld0 && paths_distinct wld0
    && C02.forest_ok cfg0 fs0 && base_set_up cfg0 fs0
-   && no_stale_tmp cfg0 fs0 (CRebase nb_ [])
+   && no_stale_tmp cfg0 fs0 (CRebase nb_ []) && no_stale_tmp cfg0 fs0 (CRename na nc)
    && (2 <=? length (read_layer_files cfg0 fs0))%nat) = true.
 Proof. exact hyps_satisfiable. Qed.
 Print Assumptions C02_hypotheses_satisfiable.
